@@ -133,12 +133,13 @@ def pull (s : State) : State × Res × Option Elem :=
   else
     match popMin s.files with
     | some (low, others) =>
+      -- e = low.head; pos++; Decode(&low.head): next element, or io.EOF and the file is closed
+      let s' : State := match low.rest with
+        | n :: r => { s with files := { low with head := some n, rest := r } :: others, pos := s.pos + 1 }
+        | [] => { s with files := others, pos := s.pos + 1 }
       match low.head with
-      | none => (s, .panic, none)
-      | some e =>
-        match low.rest with
-        | n :: r => ({ s with files := { low with head := some n, rest := r } :: others, pos := s.pos + 1 }, .ok, some e)
-        | [] => ({ s with files := others, pos := s.pos + 1 }, .ok, some e)
+      | none => (s', .panic, none)      -- a head that was never decoded: reflect.Value.Set panics
+      | some e => (s', .ok, some e)
     | none => (if s.autoClear then clear s else s, .eof, none)
 
 /-- Operations of a usage history. -/
